@@ -131,9 +131,23 @@ CLAIMS['C13'] = dict(
     technique='Verus contracts on extracted AssertCollector, Builtins::assert, do_validate, visit_ucg_files over a ghost log',
 )
 
+CLAIMS['C06'] = dict(
+    text=('PARTIAL (run-time half): for all values and constraints, the real ConstraintVal::check returns true iff the constraint has no '
+          'arms or some arm admits the value - integer and float ranges with INCLUSIVE bounds, an absent bound unconstrained, a range never '
+          'admitting the other numeric type or a non-number, an exact alternative by value equality, and an alternative that is itself a '
+          '(named) constraint admitting exactly what that constraint admits; the VM builds arm k from the k-th group of operands in source '
+          'order (start below end, NULL = open, mixed Int/Float = error) and op_check_constraint fails the build iff the value is not '
+          'admitted, leaving the checked value on the stack. The static half (exemplar shapes, tuple/list subset rules in '
+          'Shape::narrow*, the constraint grammar, placement of CheckConstraint by the translator) is NOT covered.'),
+    design_ref='DESIGN.md §5 C06',
+    note=('Trusted: Verus/Z3; container equality (List/Tuple arms of Val::equal) and the IR conversion of containers are uninterpreted stubs; '
+          'f64 comparisons are functions of their operands; Option::is_none_or / Result::unwrap_or specs; .iter().any() through a verified '
+          'loop model; stack depth >= operands demanded by the arm types is a caller obligation (translator invariant).'),
+    technique='Verus contracts on extracted ConstraintVal::check, Val::equal (scalars), VM::op_build_constraint/op_check_constraint',
+)
+
 NOT_APPLICABLE = {
     'C03': 'unit not completed yet (Val->format value mappers planned, DESIGN §5 C03)',
-    'C06': 'unit not completed yet (run-time constraint check planned, DESIGN §5 C06)',
     'C07': 'relational completeness between the whole type checker and the whole evaluator; no per-function contract within reach of Verus/Kani states "accepts what runs" (DESIGN §5 C07)',
     'C09': 'quantifies over file-system trees, working directories and import graphs; mechanisms are a generic &mut-AST walker, std::path and RefCell caches re-entered through recursive VM::run - not expressible as function contracts the installed verifiers can check (DESIGN §5 C09)',
     'C12': 'well-formedness, escaping and namespaces are produced by the xml-rs dependency; the property is about those bytes and an independent parser (DESIGN §5 C12)',
